@@ -2,6 +2,7 @@
 From Coq Require Import Permutation.
 From Ferrous Require Import Base.Bytes Model.Resp Model.Types Model.Strings Model.Lists
   Spec.Collections Proofs.BytesFacts.
+From Ferrous Require Proofs.StringsFacts.
 Open Scope Z_scope.
 
 (** ------------------------------------------------------------------ *)
@@ -644,7 +645,7 @@ Proof.
 Qed.
 
 Lemma on_key_wf d k f r d' :
-  wf_e f -> on_key d k f = (r, d') -> wf_db d -> wf_db d'.
+  wf_e f -> on_key d k f = (r, d') -> wf_colls d -> wf_colls d'.
 Proof.
   unfold on_key. intros Hw H Hd.
   assert (Hcur : wf_opt (option_map e_val (get_entry d k))).
@@ -664,12 +665,12 @@ Qed.
     databases stay well-formed *)
 Definition good_h (h : db -> list frame -> frame * db) : Prop :=
   forall d parts r d', h d parts = (r, d') ->
-  (is_error r = true -> d' = d) /\ (wf_db d -> wf_db d').
+  (is_error r = true -> d' = d) /\ (wf_colls d -> wf_colls d').
 
-Lemma good_refuse d r d' : (r_err, d) = (r, d') -> (is_error r = true -> d' = d) /\ (wf_db d -> wf_db d').
+Lemma good_refuse d r d' : (r_err, d) = (r, d') -> (is_error r = true -> d' = d) /\ (wf_colls d -> wf_colls d').
 Proof. intros H. inversion H; subst. split; auto. Qed.
 Lemma good_on_key d k f r d' : atomic_e f -> wf_e f -> on_key d k f = (r, d') ->
-  (is_error r = true -> d' = d) /\ (wf_db d -> wf_db d').
+  (is_error r = true -> d' = d) /\ (wf_colls d -> wf_colls d').
 Proof. intros A W H. split; [eapply on_key_atomic; eauto | eapply on_key_wf; eauto]. Qed.
 
 Ltac refuse_or_go :=
@@ -762,7 +763,7 @@ Qed.
 
 Lemma exec_lists_good now d name parts o r d' :
   exec_lists now d name parts o = Some (r, d') ->
-  (is_error r = true -> d' = d) /\ (wf_db d -> wf_db d').
+  (is_error r = true -> d' = d) /\ (wf_colls d -> wf_colls d').
 Proof.
   unfold exec_lists. intros H.
   repeat match type of H with
@@ -801,6 +802,32 @@ Proof.
   - apply good_hincrby.
 Qed.
 
+(** the C01 invariant (keys of the dataset and of the deadline index are unique,
+    Proofs/StringsFacts.v) is preserved by every command of this family as well *)
+Lemma on_key_keys_wf d k f : StringsFacts.wf_db d -> StringsFacts.wf_db (snd (on_key d k f)).
+Proof.
+  intros H. unfold on_key. destruct (f (option_map e_val (get_entry d k))) as [r u]. cbn [snd].
+  destruct u; cbn [apply_upd]; [exact H | apply StringsFacts.wf_put; exact H | apply StringsFacts.wf_del; exact H].
+Qed.
+Ltac go_keys :=
+  repeat match goal with
+  | |- StringsFacts.wf_db (snd (r_err, _)) => assumption
+  | |- StringsFacts.wf_db (snd (on_key _ _ _)) => apply on_key_keys_wf; assumption
+  | |- StringsFacts.wf_db (snd (if ?c then _ else _)) => destruct c
+  | |- StringsFacts.wf_db (snd (match ?x with _ => _ end)) => destruct x
+  end.
+Lemma exec_lists_keys_wf now d name parts o r d' :
+  exec_lists now d name parts o = Some (r, d') -> StringsFacts.wf_db d -> StringsFacts.wf_db d'.
+Proof.
+  unfold exec_lists. intros H Hw.
+  repeat match type of H with
+  | (if ?c then _ else _) = _ => destruct c
+  end; try discriminate; inversion H as [H1]; clear H;
+  change d' with (snd (r, d')); rewrite <- H1;
+  unfold h_push, h_key1, h_key_bulk, h_range, h_lindex, h_int_bulk, h_sadd, h_skipping, h_setalg,
+         h_srandmember, h_spop, h_hset, h_hmget, h_hincrby; go_keys; assumption.
+Qed.
+
 (** ---- histories ---- *)
 (** one command of a history: logical time, upper-cased name, the whole request, the oracle *)
 Record hcmd := { h_now : Z; h_name : bytes; h_parts : list frame; h_oracle : option frame }.
@@ -811,15 +838,15 @@ Definition c03_step (d : db) (c : hcmd) : db :=
   end.
 Definition c03_run (d : db) (cs : list hcmd) : db := fold_left c03_step cs d.
 
-Lemma wf_empty_db : wf_db empty_db.
+Lemma wf_empty_db : wf_colls empty_db.
 Proof. intros k e H. destruct H. Qed.
-Lemma c03_step_wf d c : wf_db d -> wf_db (c03_step d c).
+Lemma c03_step_wf d c : wf_colls d -> wf_colls (c03_step d c).
 Proof.
   unfold c03_step. intros H.
   destruct (exec_lists (h_now c) d (h_name c) (h_parts c) (h_oracle c)) as [[r d']|] eqn:E; [|exact H].
   apply (exec_lists_good _ _ _ _ _ _ _ E). exact H.
 Qed.
-Lemma c03_run_wf cs : forall d, wf_db d -> wf_db (c03_run d cs).
+Lemma c03_run_wf cs : forall d, wf_colls d -> wf_colls (c03_run d cs).
 Proof.
   unfold c03_run. induction cs as [|c r IH]; intros d H; cbn [fold_left]; [exact H|].
   apply IH. apply c03_step_wf. exact H.
@@ -1277,13 +1304,215 @@ Proof.
 Qed.
 
 (** ------------------------------------------------------------------ *)
+(** * LRANGE / LTRIM at the level of the engine functions; whole-list read *)
+
+Lemma lrange_reply_spec l start stop :
+  lrange_known (len l) start stop = false ->
+  e_lrange start stop (Some (VList l)) = (r_bulks (redis_range l start stop), Keep).
+Proof. intros H. unfold e_lrange. rewrite list_slice_spec by exact H. reflexivity. Qed.
+Lemma ltrim_spec l start stop :
+  lrange_known (len l) start stop = false ->
+  e_ltrim start stop (Some (VList l)) =
+  (r_ok, match redis_range l start stop with [] => Del | l' => Put (VList l') end).
+Proof. intros H. unfold e_ltrim. rewrite list_slice_spec by exact H. destruct (redis_range l start stop); reflexivity. Qed.
+
+(** LRANGE k 0 -1 (the read the dumps use) returns the whole list, in order *)
+Lemma list_slice_all l : list_slice l 0 (-1) = l.
+Proof.
+  rewrite list_slice_window. pose proof (len_nonneg l) as Hn.
+  unfold norm_clamp. cbn [Z.ltb Z.compare].
+  change (0 <? 0) with false. change (-1 <? 0) with true. cbv iota.
+  rewrite zskipn_nonpos by lia.
+  destruct (Z.eq_dec (len l) 0) as [E | NE].
+  - destruct l; [reflexivity | rewrite len_cons in E; pose proof (len_nonneg l); lia].
+  - rewrite Z.max_l by lia. apply zfirstn_all. lia.
+Qed.
+
+(** ------------------------------------------------------------------ *)
+(** * which commands can panic, and exactly when *)
+
+Definition panics (r : frame) : bool := match r with FError m => beq m (bs "PANIC") | _ => false end.
+Definition nopanic_e (f : option value -> frame * upd) : Prop := forall cur, panics (fst (f cur)) = false.
+Ltac solve_nopanic :=
+  intros cur; destruct cur as [[ | | | | | ]|]; unfold opt_bulk; red_reply; repeat break_match; red_reply; reflexivity.
+Lemma nopanic_push left els : nopanic_e (e_push left els). Proof. unfold nopanic_e, e_push. solve_nopanic. Qed.
+Lemma nopanic_pop left : nopanic_e (e_pop left). Proof. unfold nopanic_e, e_pop. solve_nopanic. Qed.
+Lemma nopanic_llen : nopanic_e e_llen. Proof. unfold nopanic_e, e_llen. solve_nopanic. Qed.
+Lemma nopanic_lrange s e : nopanic_e (e_lrange s e). Proof. unfold nopanic_e, e_lrange. solve_nopanic. Qed.
+Lemma nopanic_ltrim s e : nopanic_e (e_ltrim s e). Proof. unfold nopanic_e, e_ltrim. solve_nopanic. Qed.
+Lemma nopanic_lindex i : nopanic_e (e_lindex i). Proof. unfold nopanic_e, e_lindex. solve_nopanic. Qed.
+Lemma nopanic_lset i v : nopanic_e (e_lset i v). Proof. unfold nopanic_e, e_lset. solve_nopanic. Qed.
+Lemma nopanic_sadd ms : nopanic_e (e_sadd ms). Proof. unfold nopanic_e, e_sadd. solve_nopanic. Qed.
+Lemma nopanic_srem ms : nopanic_e (e_srem ms). Proof. unfold nopanic_e, e_srem. solve_nopanic. Qed.
+Lemma nopanic_smembers : nopanic_e e_smembers. Proof. unfold nopanic_e, e_smembers. solve_nopanic. Qed.
+Lemma nopanic_sismember m : nopanic_e (e_sismember m). Proof. unfold nopanic_e, e_sismember. solve_nopanic. Qed.
+Lemma nopanic_scard : nopanic_e e_scard. Proof. unfold nopanic_e, e_scard. solve_nopanic. Qed.
+Lemma nopanic_spop sg c o : nopanic_e (e_spop sg c o). Proof. unfold nopanic_e, e_spop. solve_nopanic. Qed.
+Lemma nopanic_hset ok ps : nopanic_e (e_hset ok ps). Proof. unfold nopanic_e, e_hset. solve_nopanic. Qed.
+Lemma nopanic_hget f : nopanic_e (e_hget f). Proof. unfold nopanic_e, e_hget. solve_nopanic. Qed.
+Lemma nopanic_hmget fs : nopanic_e (e_hmget fs). Proof. unfold nopanic_e, e_hmget. solve_nopanic. Qed.
+Lemma nopanic_hgetall : nopanic_e e_hgetall. Proof. unfold nopanic_e, e_hgetall. solve_nopanic. Qed.
+Lemma nopanic_hdel fs : nopanic_e (e_hdel fs). Proof. unfold nopanic_e, e_hdel. solve_nopanic. Qed.
+Lemma nopanic_hlen : nopanic_e e_hlen. Proof. unfold nopanic_e, e_hlen. solve_nopanic. Qed.
+Lemma nopanic_hexists f : nopanic_e (e_hexists f). Proof. unfold nopanic_e, e_hexists. solve_nopanic. Qed.
+Lemma nopanic_hkeys : nopanic_e e_hkeys. Proof. unfold nopanic_e, e_hkeys. solve_nopanic. Qed.
+Lemma nopanic_hvals : nopanic_e e_hvals. Proof. unfold nopanic_e, e_hvals. solve_nopanic. Qed.
+
+Lemma on_key_nopanic d k f : nopanic_e f -> panics (fst (on_key d k f)) = false.
+Proof.
+  intros H. unfold on_key. specialize (H (option_map e_val (get_entry d k))).
+  destruct (f (option_map e_val (get_entry d k))). exact H.
+Qed.
+Definition nopanic_h (h : db -> list frame -> frame * db) : Prop := forall d parts, panics (fst (h d parts)) = false.
+Ltac go_nopanic :=
+  repeat match goal with
+  | |- panics (fst (r_err, _)) = false => reflexivity
+  | |- panics (fst (on_key _ _ _)) = false => apply on_key_nopanic
+  | |- panics (fst (if ?c then _ else _)) = false => destruct c
+  | |- panics (fst (match ?x with _ => _ end)) = false => destruct x
+  end.
+Lemma nopanic_h_push left : nopanic_h (h_push left).
+Proof. intros d parts. unfold h_push. go_nopanic. apply nopanic_push. Qed.
+Lemma nopanic_h_key1 f : nopanic_e f -> nopanic_h (h_key1 f).
+Proof. intros H d parts. unfold h_key1. go_nopanic. exact H. Qed.
+Lemma nopanic_h_key_bulk f : (forall a, nopanic_e (f a)) -> nopanic_h (h_key_bulk f).
+Proof. intros H d parts. unfold h_key_bulk. go_nopanic. apply H. Qed.
+Lemma nopanic_h_range f : (forall s e, nopanic_e (f s e)) -> nopanic_h (h_range f).
+Proof. intros H d parts. unfold h_range. go_nopanic. apply H. Qed.
+Lemma nopanic_h_lindex : nopanic_h h_lindex.
+Proof. intros d parts. unfold h_lindex. go_nopanic. apply nopanic_lindex. Qed.
+Lemma nopanic_h_int_bulk f : (forall i v, nopanic_e (f i v)) -> nopanic_h (h_int_bulk f).
+Proof. intros H d parts. unfold h_int_bulk. go_nopanic. apply H. Qed.
+Lemma nopanic_h_sadd : nopanic_h h_sadd.
+Proof. intros d parts. unfold h_sadd. go_nopanic. apply nopanic_sadd. Qed.
+Lemma nopanic_h_skipping f : (forall ms, nopanic_e (f ms)) -> nopanic_h (h_skipping f).
+Proof. intros H d parts. unfold h_skipping. go_nopanic. apply H. Qed.
+Lemma nopanic_h_setalg f : nopanic_h (h_setalg f).
+Proof.
+  intros d parts. unfold h_setalg. go_nopanic. cbn [fst]. destruct (f d l); reflexivity.
+Qed.
+Lemma nopanic_h_spop o : nopanic_h (fun d parts => h_spop d parts o).
+Proof. intros d parts. unfold h_spop. go_nopanic; apply nopanic_spop. Qed.
+Lemma nopanic_h_hset ok : nopanic_h (h_hset ok).
+Proof. intros d parts. unfold h_hset. go_nopanic. apply nopanic_hset. Qed.
+Lemma nopanic_h_hmget : nopanic_h h_hmget.
+Proof. intros d parts. unfold h_hmget. go_nopanic. apply nopanic_hmget. Qed.
+
+(** only LREM, SRANDMEMBER and HINCRBY can make the server panic ... *)
+Lemma exec_lists_panic_names now d name parts o r d' :
+  exec_lists now d name parts o = Some (r, d') -> panics r = true ->
+  name = bs "LREM" \/ name = bs "SRANDMEMBER" \/ name = bs "HINCRBY".
+Proof.
+  unfold exec_lists. intros H Hp.
+  repeat match type of H with
+  | (if beq ?a ?b then _ else _) = _ => destruct (beq a b) eqn:?
+  end; try discriminate;
+  try (match goal with E : beq name (bs "LREM") = true |- _ => apply beq_eq in E; auto end);
+  try (match goal with E : beq name (bs "SRANDMEMBER") = true |- _ => apply beq_eq in E; auto end);
+  try (match goal with E : beq name (bs "HINCRBY") = true |- _ => apply beq_eq in E; auto end);
+  exfalso; inversion H as [H1]; clear H;
+  match type of H1 with ?lhs = _ => assert (Hn : panics (fst lhs) = false) end;
+  try (rewrite H1 in Hn; cbn [fst] in Hn; congruence).
+  - apply nopanic_h_push.
+  - apply nopanic_h_push.
+  - apply nopanic_h_key1, nopanic_pop.
+  - apply nopanic_h_key1, nopanic_pop.
+  - apply nopanic_h_key1, nopanic_llen.
+  - apply nopanic_h_range, nopanic_lrange.
+  - apply nopanic_h_lindex.
+  - apply nopanic_h_int_bulk, nopanic_lset.
+  - apply nopanic_h_range, nopanic_ltrim.
+  - apply nopanic_h_sadd.
+  - apply nopanic_h_skipping, nopanic_srem.
+  - apply nopanic_h_key1, nopanic_smembers.
+  - apply nopanic_h_key_bulk, nopanic_sismember.
+  - apply nopanic_h_key1, nopanic_scard.
+  - apply nopanic_h_setalg.
+  - apply nopanic_h_setalg.
+  - apply nopanic_h_setalg.
+  - apply (nopanic_h_spop o).
+  - apply nopanic_h_hset.
+  - apply nopanic_h_hset.
+  - apply nopanic_h_key_bulk, nopanic_hget.
+  - apply nopanic_h_hmget.
+  - apply nopanic_h_key1, nopanic_hgetall.
+  - apply nopanic_h_skipping, nopanic_hdel.
+  - apply nopanic_h_key1, nopanic_hlen.
+  - apply nopanic_h_key_bulk, nopanic_hexists.
+  - apply nopanic_h_key1, nopanic_hkeys.
+  - apply nopanic_h_key1, nopanic_hvals.
+Qed.
+
+(** ... and exactly on these inputs *)
+Lemma lrem_panics_iff c x cur :
+  panics (fst (e_lrem c x cur)) = true <-> (exists l, cur = Some (VList l)) /\ c = isize_min.
+Proof.
+  unfold e_lrem. destruct cur as [[ | l| | | | ]|]; red_reply;
+    try (split; [discriminate | intros [[l0 E] _]; discriminate]).
+  unfold list_rem.
+  destruct (c =? 0) eqn:E0; [|destruct (0 <? c) eqn:E1; [|destruct (c =? isize_min) eqn:E2]].
+  - red_reply. apply Z.eqb_eq in E0. split; [discriminate | intros [_ E]; subst; discriminate].
+  - destruct (lrem_fwd x c l). red_reply. apply Z.ltb_lt in E1.
+    split; [discriminate | intros [_ E]; subst; unfold isize_min, i64_min in E1; lia].
+  - red_reply. apply Z.eqb_eq in E2. split; [intros _; split; [exists l; reflexivity | exact E2] | reflexivity].
+  - destruct (lrem_fwd x (- c) (rev l)). red_reply. apply Z.eqb_neq in E2.
+    split; [discriminate | intros [_ E]; congruence].
+Qed.
+Definition hincrby_overflows (h : list (bytes * bytes)) (f : bytes) (inc : Z) : bool :=
+  match alookup f h with
+  | Some v => match parse_i64 v with Some c => negb (in_i64 (c + inc)) | None => false end
+  | None => false
+  end.
+Lemma hincrby_panics_hash f inc h :
+  panics (fst (e_hincrby f inc (Some (VHash h)))) = hincrby_overflows h f inc.
+Proof.
+  unfold e_hincrby, hincrby_overflows.
+  destruct (alookup f h) as [v|]; [destruct (parse_i64 v) as [c|]; [destruct (in_i64 (c + inc))|]|]; reflexivity.
+Qed.
+Lemma hincrby_panics_iff f inc cur :
+  panics (fst (e_hincrby f inc cur)) = true <->
+  exists h, cur = Some (VHash h) /\ hincrby_overflows h f inc = true.
+Proof.
+  destruct cur as [[ | | |h| | ]|];
+    try (split; [cbn; discriminate | intros [h0 [E _]]; discriminate]).
+  rewrite hincrby_panics_hash. split; [intros H; exists h; auto | intros [h0 [E H]]; inversion E; subst; exact H].
+Qed.
+Lemma srandmember_panics_iff count o cur :
+  panics (fst (e_srandmember count o cur)) = true <->
+  exists s n, cur = Some (VSet s) /\ s <> [] /\ count = Some n /\ n < 0 /\ srand_neg_ok n = false.
+Proof.
+  destruct cur as [[ | |s| | | ]|];
+    try (split; [cbn; try destruct count; discriminate | intros (sx & nx & E & _); discriminate]).
+  destruct s as [|m0 s0].
+  { split; [cbn; destruct count; discriminate | intros (s1 & n & E & Hne & _); inversion E; subst; congruence]. }
+  unfold e_srandmember. destruct count as [n|].
+  - destruct (0 <=? n) eqn:Hn.
+    + apply Z.leb_le in Hn. split.
+      * destruct (oracle_bulks o) as [xs|]; [destruct (pick_distinct_ok (m0 :: s0) (Z.min n (len (m0 :: s0))) xs)|]; cbn; discriminate.
+      * intros (s1 & n1 & E & _ & En & Hneg & _). inversion En; subst. lia.
+    + apply Z.leb_gt in Hn.
+      destruct (n =? i64_min) eqn:E1.
+      * split; [intros _; exists (m0 :: s0), n; split; [reflexivity | split; [discriminate | split; [reflexivity | split; [lia | unfold srand_neg_ok; rewrite E1; destruct (n <? 0); reflexivity]]]] | reflexivity].
+      * destruct (isize_max <? 24 * - n) eqn:E2.
+        { split; [intros _; exists (m0 :: s0), n; split; [reflexivity | split; [discriminate | split; [reflexivity | split; [lia | unfold srand_neg_ok; rewrite E1, E2; destruct (n <? 0); reflexivity]]]] | reflexivity]. }
+        split.
+        { destruct (oracle_bulks o) as [xs|]; [destruct (pick_repeat_ok (m0 :: s0) (- n) xs)|]; cbn; discriminate. }
+        intros (s1 & n1 & E & _ & En & _ & Hbad). inversion En; subst n1.
+        unfold srand_neg_ok in Hbad. replace (n <? 0) with true in Hbad by (symmetry; apply Z.ltb_lt; lia).
+        rewrite E1, E2 in Hbad. discriminate.
+  - split.
+    + destruct (oracle_bulk o) as [xs|]; [destruct (pick_distinct_ok (m0 :: s0) 1 xs); [destruct xs|]|]; cbn; discriminate.
+    + intros (s1 & n1 & _ & _ & En & _). discriminate.
+Qed.
+
+(** ------------------------------------------------------------------ *)
 (** * statements as they appear in Props/C03.v *)
 
 Lemma exec_lists_atomic now d name parts oracle r d' :
   exec_lists now d name parts oracle = Some (r, d') -> is_error r = true -> d' = d.
 Proof. intros. eapply exec_lists_good; eauto. Qed.
 Lemma exec_lists_wf now d name parts oracle r d' :
-  exec_lists now d name parts oracle = Some (r, d') -> wf_db d -> wf_db d'.
+  exec_lists now d name parts oracle = Some (r, d') -> wf_colls d -> wf_colls d'.
 Proof. intros. eapply exec_lists_good; eauto. Qed.
 Lemma run_empty_removed cs k e : In (k, e) (d_data (c03_run empty_db cs)) ->
   match e_val e with VList l => l <> [] | VSet s => s <> [] | VHash h => h <> [] | _ => True end.
@@ -1369,11 +1598,6 @@ Lemma hset_fresh_refuted_history :
 Proof. vm_compute. reflexivity. Qed.
 
 (** F-06e / F-06g / F-06h: arithmetic panics *)
-Definition hincrby_overflows (h : list (bytes * bytes)) (f : bytes) (inc : Z) : bool :=
-  match alookup f h with
-  | Some v => match parse_i64 v with Some c => negb (in_i64 (c + inc)) | None => false end
-  | None => false
-  end.
 Lemma hincrby_overflow_panics h f inc :
   hincrby_overflows h f inc = true -> e_hincrby f inc (Some (VHash h)) = (PANIC, Keep).
 Proof.
